@@ -148,7 +148,7 @@ def roundtrip_oracle(case, impl):
             continue
         v = last[f]
         want = {"u8": v & 255, "u4": v, "u4m": v & 15, "u2": v & 3, "bool": 1 if v else 0, "u16": v, "u24x100": v * 100,
-                "u32": v, "i6": v, "ns": (v // 3906250) * 3906250}.get(kind)
+                "u32": v, "i6": v, "ns": ((v // 3906250) % 256) * 3906250}.get(kind)
         if want is None or acc >= len(vals):
             continue
         if int(vals[acc]) != want:
